@@ -73,6 +73,8 @@ EVENTS = {
     # an explicit mapping argument
     "no-org": ("n0:\nlda.w #0x1234\n.db 1, 2, 3\njsr.w n0\n", "low_rom"),
     "file-api-no-org": ("FILEAPI", None),
+    # failing assemblies through the file API, the source sitting in another directory
+    "file-api-failures": ("FILEFAIL", None),
 }
 EVENT_NAMES = list(EVENTS)
 PROBES = {
@@ -106,10 +108,11 @@ PROBES = {
     # a file name that is not an identifier: the names of its symbols are the same in every process
     "p-incbin-odd-name": ("*=0x018000\n.incbin 'odd-name file.bin'\nafter_odd:\n.db 1\n", "low_rom"),
     "p-text-without-table": ("*=0x018000\n.db 1\n.text 'ab'\n", "low_rom"),
+    "p-file-api-incbin": ("*=0x018000\n.incbin 'blob.bin'\nfa:\n.dl fa\n", "file:low:ips"),
     "p-file-api-default": ("n0:\n.db 1\njmp.w n0\nn1:\n.dl n1\n", "file:none:ips"),
 }
 PROBE_NAMES = list(PROBES)
-NONTRIVIAL_EVENTS = {"defines-names", "table", "custom-map", "hirom", "fail-scanner", "fail-parser", "fail-codegen", "fail-labelpass", "fail-emit", "cli", "fail-in-include", "missing-include", "block-argument", "ips-with-delta", "bad-table", "rewritten-table", "many-wide-operands", "files-from-subdir", "no-org", "file-api-no-org"}
+NONTRIVIAL_EVENTS = {"defines-names", "table", "custom-map", "hirom", "fail-scanner", "fail-parser", "fail-codegen", "fail-labelpass", "fail-emit", "cli", "fail-in-include", "missing-include", "block-argument", "ips-with-delta", "bad-table", "rewritten-table", "many-wide-operands", "files-from-subdir", "no-org", "file-api-no-org", "file-api-failures"}
 
 
 def bound(tier):
@@ -196,6 +199,19 @@ def do_event(name):
             except Exception:  # noqa: BLE001
                 pass
         return
+    if src == "FILEFAIL":
+        from a816.program import Program
+        os.makedirs("elsewhere", exist_ok=True)
+        impl.write_files({"elsewhere/blob.bin": b"\xEE" * 4, "elsewhere/bad1.s": "*=0x018000\n.db 1\nlda.w nosuchsymbol\n",
+                          "elsewhere/bad2.s": "*=0x018000\n.db 1\n)\n", "elsewhere/bad3.s": "*=0x018000\n.incbin 'nosuch.bin'\n"})
+        for srcf in ("elsewhere/bad1.s", "elsewhere/bad2.s", "elsewhere/bad3.s"):
+            for fmt in ("ips", "sfc"):
+                try:
+                    pr = Program()
+                    (pr.assemble_as_patch if fmt == "ips" else pr.assemble)(srcf, "ff.out", "low")
+                except Exception:  # noqa: BLE001
+                    pass
+        return
     if src == "REWRITE":
         # an assembly that loads p.tbl while the file has OTHER content; the file is put back afterwards
         impl.write_files({"p.tbl": "77=a\n78=b\n"})
@@ -279,7 +295,18 @@ def fingerprint():
     return h64("\n".join(parts))
 
 
+def enable_logging():
+    """The harness silences logging globally; in C19's children it is switched back on (quietly), so that state kept in logging
+    handlers by the code under test behaves as it would in a user's process."""
+    import logging
+    logging.disable(logging.NOTSET)
+    root = logging.getLogger()
+    if not any(isinstance(h, logging.NullHandler) for h in root.handlers):
+        root.addHandler(logging.NullHandler())
+
+
 def import_all():
+    enable_logging()
     import a816.cli  # noqa: F401
     import a816.program  # noqa: F401
     import a816.parse.ast.expression  # noqa: F401
@@ -462,7 +489,7 @@ def run_reuse(n, pre):
             "violations": viol[:12], "depth": n}
 
 
-CORE_EVENTS = ["file-api-no-org", "files-from-subdir", "many-wide-operands", "defines-names", "custom-map", "hirom", "fail-codegen", "fail-emit", "cli", "block-argument", "rewritten-table", "fail-in-include"]
+CORE_EVENTS = ["file-api-failures", "file-api-no-org", "files-from-subdir", "many-wide-operands", "defines-names", "custom-map", "hirom", "fail-codegen", "fail-emit", "cli", "block-argument", "rewritten-table", "fail-in-include"]
 
 
 def cases(tier, seed):
